@@ -171,6 +171,45 @@ pub fn run(ctx: &Ctx) -> i32 {
         });
     }
 
+    // palettes in which two entries hold the same four bytes: transparency goes by index, never by colour
+    if ctx.wants_family("duplicate-colours") {
+        let mut cases = Vec::new();
+        for i in 0..4usize {
+            for j in 0..4usize {
+                if i == j {
+                    continue;
+                }
+                for t in 0..5u8 {
+                    for bg in 0..2 {
+                        for alpha in [255u8, 128, 0] {
+                            cases.push((i, j, t, bg, alpha));
+                        }
+                    }
+                }
+            }
+        }
+        ctx.family("duplicate-colours", cases.len() as u64, "indexed 3x2 sprites with a 5-entry palette in which entry j repeats the four bytes of entry i (all ordered pairs of 0..3, shared alpha 255 / 128 / 0), every transparent index 0..4, background flag 0/1; the cel uses every palette id", true);
+        cases.par_iter().for_each(|(i, j, t, bg, alpha)| {
+            let case = || format!("i={} j={} t={} bg={} alpha={}", i, j, t, bg, alpha);
+            if !ctx.wants("duplicate-colours", &case) {
+                return;
+            }
+            let fmt = Fmt::Indexed(*t);
+            let mut f = gen::file(3, 2, &fmt, &[10]);
+            let mut pal = pal_entries(5, 2);
+            pal[*i].rgba[3] = *alpha;
+            pal[*j].rgba = pal[*i].rgba;
+            f.frames[0].push(new_palette(0, pal));
+            let mut l = Layer::image("l");
+            if *bg == 1 {
+                l.flags = 1 | 2 | 8;
+            }
+            f.frames[0].push(Body::Layer(l));
+            f.frames[0].push(raw_cel(0, 0, 0, 255, 3, 2, vec![0, 1, 2, 3, 4, *j as u8]));
+            conform(ctx, "duplicate-colours", &case, &f, &want);
+        });
+    }
+
     // Absent cels and links: every subset of present cells, every (src,dst) link
     // all 65,536 (layer opacity, cel opacity) pairs: the cel image's alpha is scaled by the rounded product
     if ctx.wants_family("opacity-pairs") {
